@@ -310,7 +310,7 @@ CORPUS_W = [
     ([5.0, 1e11], [0.0, 1.0]), ([5.0, 1e11], [1.0, 0.0]), ([1e11, 1e12], [0.5, 0.5]),
     ([1.0, 2.0], [0.5, 0.5, 0.0]), ([1.0, 2.0], [1.5, -0.5]), ([1.0, 2.0], [0.3, 0.3]), ([], []),
     ([-100.0, -100.0, -100.0], [0.3, 0.3, 0.4]),  # the source of -1.0000000000000002 in the shipped table
-    # fixed defect (commit 214cd12): valid entry with weight 0, rejected weights summing to 0.9999999999999999 -> raised AssertionError
+    # fixed defect (commit 55f6ad8): valid entry with weight 0, rejected weights summing to 0.9999999999999999 -> raised AssertionError
     ([3.0, 1e26, -1e9, 1e11], [0.0, 0.6, 0.3, 0.1]),
     ([3.0, 1e26, -1e9, 1e11], [0.0, 0.3, 0.3, 0.4]),
     ([3.0, 1e26, -1000000000.0, -1.0496787285722855e27], [0.0, 0.13517336278667402, 0.6620665930333148, 0.20276004418001103]),
